@@ -16,6 +16,7 @@ var initAllow = map[string]bool{
 	"errors": true, "io": true, "bytes": true, "strings": true, "strconv": true, "unicode/utf8": true,
 	"sort": true, "math": true, "math/bits": true, "path": true, "bufio": true, "context": true,
 	"sync": true, "sync/atomic": true, "unicode": true, "io/fs": false,
+	"regexp": true, "regexp/syntax": true, "slices": true,
 	"github.com/bytedance/gopkg/lang/mcache": false,
 }
 
